@@ -398,7 +398,31 @@ ScArms3(G(_, _)) ==
        Ob("c", Ret(TInt), <<Data("B")>>),
        Lit(<<[k |-> "do", a |-> TInt, c |-> OS], [k |-> "force", c |-> Ret(TInt)], V(1), [k |-> "exit"], V(2)>>) >>)
 
-ScenarioCfg == \E p \in Prods : p \in {"sc-escape", "sc-escapeT", "sc-copat3", "sc-arms3"}
+(* "fixrec" / "fixco": a `fix` in ELIMINATED position (directly applied / directly destructed: its consuming stack is   *)
+(* not empty when it is entered) that really re-enters itself once, with a different argument / destructor:            *)
+(*   do r <- (fix f => fn b => match b | +T(u) => H1 | +F(n) => ! f +T(())) +F(H2); ! exit r                           *)
+(*   do r <- (fix o => comatch | .fst => H1 | .snd => fn n => ! o .fst) .snd H2; ! exit r                              *)
+(* What is pending at the definition site (the argument +F(..), the destructor .snd) must not be seen again on re-entry. *)
+FB == Fn(Data("B"), Ret(TInt))
+ScFixRec(G(_, _)) ==
+  G([k |-> "do", a |-> TInt, c |-> OS],
+    << Lit(<<[k |-> "app", a |-> Data("B"), c |-> Ret(TInt)], [k |-> "fix", c |-> FB], [k |-> "lam", a |-> Data("B"), c |-> Ret(TInt)],
+             [k |-> "match", d |-> "B", c |-> Ret(TInt), skip |-> 0], V(2)>>),
+       Ob("c", Ret(TInt), <<Thk(FB), Data("B"), TUnit>>),
+       Lit(<<[k |-> "app", a |-> Data("B"), c |-> Ret(TInt)], [k |-> "force", c |-> FB], V(1), [k |-> "ctor", d |-> "B", c |-> "T"], [k |-> "unit"],
+             [k |-> "ctor", d |-> "B", c |-> "F"]>>),
+       Ob("v", TInt, << >>),
+       Lit(<<[k |-> "exit"], V(1)>>) >>)
+ScFixCo(G(_, _)) ==
+  G([k |-> "do", a |-> TInt, c |-> OS],
+    << Lit(<<[k |-> "app", a |-> TInt, c |-> Ret(TInt)], [k |-> "dtor", d |-> "snd", c |-> Fn(TInt, Ret(TInt))], [k |-> "fix", c |-> CoData("S")],
+             [k |-> "comatch", d |-> "S", skip |-> 0]>>),
+       Ob("c", Ret(TInt), <<Thk(CoData("S"))>>),
+       Lit(<<[k |-> "lam", a |-> TInt, c |-> Ret(TInt)], [k |-> "dtor", d |-> "fst", c |-> Ret(TInt)], [k |-> "force", c |-> CoData("S")], V(1)>>),
+       Ob("v", TInt, << >>),
+       Lit(<<[k |-> "exit"], V(1)>>) >>)
+
+ScenarioCfg == \E p \in Prods : p \in {"sc-escape", "sc-escapeT", "sc-copat3", "sc-arms3", "sc-fixrec", "sc-fixco"}
 Gen ==
   /\ phase = "gen" /\ todo # << >>
   /\ Len(out) + Len(todo) <= MaxLen
@@ -412,6 +436,8 @@ Gen ==
      \/ o.s = "c" /\ o.ty = OS /\ o.ctx = << >> /\ out = << >> /\ On("sc-escapeT") /\ ScEscapeT(Good)
      \/ o.s = "c" /\ o.ty = OS /\ o.ctx = << >> /\ out = << >> /\ On("sc-copat3") /\ ScCopat3(Good)
      \/ o.s = "c" /\ o.ty = OS /\ o.ctx = << >> /\ out = << >> /\ On("sc-arms3") /\ ScArms3(Good)
+     \/ o.s = "c" /\ o.ty = OS /\ o.ctx = << >> /\ out = << >> /\ On("sc-fixrec") /\ ScFixRec(Good)
+     \/ o.s = "c" /\ o.ty = OS /\ o.ctx = << >> /\ out = << >> /\ On("sc-fixco") /\ ScFixCo(Good)
      \/ o.s \in {"v", "c"} /\ Faults # {} /\ faulty = "none" /\ (out # << >> \/ ~ScenarioCfg) /\ GenFault(o)
 
 ----------------------------------------------------------------------------
